@@ -22,6 +22,7 @@ func init() {
 			"R4": "Player<X> invokes Game.<X>; published label equals the action constant of X",
 			"R5": "hand-side single action: validator call first with own index (and own action name); backend call / ready-group signal / state update dominated by validator success",
 			"R6": "validator definitions: engine-side ok ⇒ status playing ∧ index set; current-player validator ok ⇒ player exists ∧ index == current player; allowed-action validator ok ⇒ player exists ∧ HasAction(index, action)",
+			"R9": "the hand-state hook stores each new state in the table first and clears the published last action exactly at round close",
 			"R8": "the status the engine-side validator relies on (playing) is stored only after the hand's Start succeeded (shared with C07.R1)",
 			"R7": "last-action store is built from the caller's own id and player index and (wager actions, pass) followed by an action event carrying that same value; action record fields come from their parameters",
 		},
@@ -35,6 +36,8 @@ var actionLabel = map[string]string{"Ready": "ready", "Pay": "pay", "Pass": "pas
 
 func checkC10(c *Ctx) {
 	p := c.P
+	// R9: the published last action is only ever cleared by the hook, when a betting round closes
+	checkUpdateHook(c, "R9", "lastaction", "store")
 	// R8: "a hand is being played" (the status the engine-side validator tests) is only
 	// ever recorded after the hand's Start succeeded
 	if lc := p.lifecycle(); lc.startFn != nil && lc.startCall != nil {
